@@ -2,7 +2,12 @@ package mon
 
 import (
 	"bytes"
+	"encoding/base64"
+	"encoding/json"
+	"fmt"
 	"io"
+	"os"
+	"os/exec"
 	"strings"
 
 	mxj "github.com/clbanning/mxj/v2"
@@ -49,6 +54,9 @@ func (p plainReader) Read(b []byte) (int, error) { return p.r.Read(b) }
 
 func (c01) Case(c *core.Ctx) {
 	r := c.R
+	if c.Index%1500 == 11 {
+		c01multiCharPrefix(c)
+	}
 	cfg := GenCfg(r, true, true)
 	g := c01gen
 	root := g.Gen(r, r.Intn(6))
@@ -65,6 +73,7 @@ func (c01) Case(c *core.Ctx) {
 	cfg.Apply()
 	defer ResetDefaults()
 	c.Eval()
+	failedCalls(c, 8)
 	c.Distinct("configs", core.HashStr(cfg.String()))
 	f := root.Features()
 	if f.Interleaved {
@@ -180,6 +189,59 @@ func (c01) Case(c *core.Ctx) {
 	cfg, want0 = cfg2, cfg2.RefDecode(root)
 	m, err = mxj.NewMapXml(doc, cfg.Cast)
 	check("NewMapXml after "+flip, m, err)
+}
+
+// C01Child: fresh process; sets the global key prefix ONCE (a prefix of more than one character cannot be changed back by
+// the setter - it replaces every occurrence of the old first character -, so such prefixes are only ever used in a process of
+// their own) and decodes the document.
+func C01Child(prefix64, b64 string) {
+	pb, _ := base64.StdEncoding.DecodeString(prefix64)
+	prefix := string(pb)
+	doc, _ := base64.StdEncoding.DecodeString(b64)
+	mxj.SetGlobalKeyMapPrefix(prefix)
+	m, err := mxj.NewMapXml(doc)
+	ms, err2 := mxj.NewMapXmlSeq(doc)
+	b, _ := json.Marshal(map[string]interface{}{"map": jv.Fp(m), "err": fmt.Sprint(err), "seq_has_text_key": strings.Contains(jv.Fp(ms), prefix+"text"), "seq_err": fmt.Sprint(err2),
+		"snapshot_textK": mxj.VerifOptionSnapshot()["textK"]})
+	fmt.Println("C01CHILD " + string(b))
+}
+
+func c01multiCharPrefix(c *core.Ctx) {
+	r := c.R
+	prefix := []string{"__", "#!", "%%", "~~~~~~", "#_#", "::"}[r.Intn(6)]
+	cfg := DefaultCfg()
+	cfg.KeyPrefix = prefix
+	var root *xt.Node
+	for i := 0; i < 40; i++ {
+		root = c01gen.Gen(r, 1+r.Intn(3))
+		if f := root.Features(); f.MixedText && !cfg.usesReserved(root) && !cfg.keyClash(root) {
+			break
+		}
+		root = nil
+	}
+	if root == nil {
+		return
+	}
+	doc := xt.Render(r, root, xt.Style{})
+	self, err := os.Executable()
+	if err != nil {
+		c.Harness("c01: " + err.Error())
+		return
+	}
+	out, err := exec.Command(self, "-c01child", base64.StdEncoding.EncodeToString([]byte(prefix))+"."+base64.StdEncoding.EncodeToString(doc)).Output()
+	i := strings.Index(string(out), "C01CHILD ")
+	if err != nil || i < 0 {
+		c.Violate("c01-keyprefix-child-failed", "decoding under a multi-character global key prefix in a fresh process failed (panic?)", core.D{"prefix": prefix, "doc": string(doc), "err": fmt.Sprint(err), "output": string(out)})
+		return
+	}
+	var res map[string]interface{}
+	json.Unmarshal([]byte(strings.TrimSpace(string(out)[i+9:])), &res)
+	c.Count("multi-char-key-prefix(fresh process)")
+	c.Eval()
+	want := jv.Fp(mxj.Map(resolveAlts(cfg.RefDecode(root), nil).(map[string]interface{})))
+	if res["map"] != want || res["snapshot_textK"] != prefix+"text" || res["seq_has_text_key"] != true {
+		c.Violate("c01-keyprefix-multichar", "under a multi-character global key prefix the decoder does not use prefix+\"text\" etc.", core.D{"prefix": prefix, "doc": string(doc), "expected_map": want, "child": res})
+	}
 }
 
 // c01class names the deviation shape so that a known finding can be matched by
